@@ -8,7 +8,8 @@ package main
 //   * the listen address becomes 127.0.0.1:0, buffer root paths go to a scratch directory
 //   * the output list is [fluentd], [fluentd, datadog] (as shipped) or [datadog, fluentd]
 //   * variant "x": two more pipeline transforms the sample file does not use (mapValue, regex extract), appended to
-//     the transformation list, so that every transform type in the repository handles pooled records here
+//     the transformation list, so that every transform type in the repository handles pooled records here, and a
+//     truncate (maxLen 2000) appended to the input's extractions, where transforms meet whole input batches
 
 import (
 	"fmt"
@@ -87,6 +88,13 @@ func configYAML(v variant, scratch string) (string, error) {
 		return "", err
 	}
 	if v.extra {
+		// transforms under inputs[].extractions run on the connection's goroutine and their results wait, together with the
+		// other records of the input batch, until the batch is handed over: per-instance state that is harmless in a pipeline
+		// (one record at a time) aliases records here. One more step there, with a per-record result: truncate.
+		exMarker := "      - type: delFields                           # delFields: Clear specified fields (set to empty string)\n        keys: [facility, pid, extradata]\n"
+		if err := mustReplace(exMarker, exMarker+"\n      - type: truncate\n        key: log\n        maxLen: 2000\n        suffix: '~cut'\n"); err != nil {
+			return "", err
+		}
 		marker := "  # Add Datadog specific fields\n"
 		if err := mustReplace(marker, extraTransforms+"\n"+marker); err != nil {
 			return "", err
